@@ -28,15 +28,15 @@ From Oras Require Import Base.Prelude Base.Regex Generated.GC20 Generated.GC13 M
    statement is false without that last hypothesis. *)
 Theorem C13_refines_store_partial :
   forall (H : str -> str) (parse_mt : str -> option str) (subject_of : str -> option (option desc))
-         (main other : str) (user_mts : list str) (p : profile),
+         (main other : str) (user_mts : list str) (limit : N) (p : profile),
     str_eqb main other = false ->
     parse_mt ct_octet = Some ct_octet ->
     (forall c, valid_digest (H c) = true) ->
     forall other_blobs rst os g out,
       (forall d c, lookup d other_blobs = Some c -> d = H c) ->
       rst_ok p rst ->
-      wf_hist H parse_mt subject_of main user_mts p (mkStore [] [] [] other_blobs) os ->
-      run_history H parse_mt subject_of main other user_mts p None other_blobs rst os = (g, out) ->
+      wf_hist H parse_mt subject_of main user_mts limit p (mkStore [] [] [] other_blobs) os ->
+      run_history H parse_mt subject_of main other user_mts limit p None other_blobs rst os = (g, out) ->
       map snd out = snd (spec_run H subject_of main user_mts (mkStore [] [] [] other_blobs) os) /\
       store_of g = fst (spec_run H subject_of main user_mts (mkStore [] [] [] other_blobs) os).
 Proof. exact run_history_refines. Qed.
@@ -45,7 +45,7 @@ Print Assumptions C13_refines_store_partial.
 (* without the digest-header hypothesis the full statement is false (finding
    head-tag-no-digest-header): PushReference under a tag succeeds, Resolve of the tag fails *)
 Theorem C13_refines_store_refuted :
-  map snd (snd (run_history w_H (fun s => Some s) (fun _ => Some None) (b "app") (b "src") []
+  map snd (snd (run_history w_H (fun s => Some s) (fun _ => Some None) (b "app") (b "src") [] w_limit
                             w_profile None [] RSUnknown w_ops))
   = [ROk; RErr EOther] /\
   snd (spec_run w_H (fun _ => Some None) (b "app") [] (mkStore [] [] [] []) w_ops) = [ROk; RDesc w_desc].
@@ -59,10 +59,10 @@ Print Assumptions C13_refines_store_refuted.
    C13_refines_store_partial -- [wf_op] puts no other condition on the profile. *)
 Theorem C13_resolve_tag_needs_header :
   forall (H : str -> str) (parse_mt : str -> option str) (subject_of : str -> option (option desc))
-         (main other : str) (user_mts : list str) (p : profile) g n rst rs rf d mt c,
+         (main other : str) (user_mts : list str) (limit : N) (p : profile) g n rst rs rf d mt c,
     resolve_ref main rs = Some rf -> valid_digest rf = false ->
     man_lookup (store_of g) rf = Some (d, (mt, c)) -> p_dighdr p = false ->
-    snd (run_op H parse_mt subject_of main other user_mts (reg * N)
+    snd (run_op H parse_mt subject_of main other user_mts limit (reg * N)
                 (cexch H subject_of main other p None) (g, n) rst (OResolve rs)) = RErr EOther /\
     snd (spec_op H subject_of main user_mts (store_of g) (OResolve rs)) = RDesc (mkDesc mt d (len c)).
 Proof. exact resolve_tag_needs_header. Qed.
@@ -70,10 +70,10 @@ Print Assumptions C13_resolve_tag_needs_header.
 
 Theorem C13_fetchref_tag_needs_header :
   forall (H : str -> str) (parse_mt : str -> option str) (subject_of : str -> option (option desc))
-         (main other : str) (user_mts : list str) (p : profile) g n rst rs rf d mt c,
+         (main other : str) (user_mts : list str) (limit : N) (p : profile) g n rst rs rf d mt c,
     resolve_ref main rs = Some rf -> valid_digest rf = false ->
     man_lookup (store_of g) rf = Some (d, (mt, c)) -> p_dighdr p = false -> p_clen p = false ->
-    snd (run_op H parse_mt subject_of main other user_mts (reg * N)
+    snd (run_op H parse_mt subject_of main other user_mts limit (reg * N)
                 (cexch H subject_of main other p None) (g, n) rst (OFetchRef rs)) = RErr EOther /\
     snd (spec_op H subject_of main user_mts (store_of g) (OFetchRef rs)) = RDescBytes (mkDesc mt d (len c)) c.
 Proof. exact fetchref_tag_needs_header. Qed.
@@ -159,7 +159,7 @@ Print Assumptions C13_predecessors_paged.
    fetched, re-tagged; a second manifest whose subject is the first one, found by
    Predecessors; a blob mounted from the sibling repository; deletions *)
 Example C13_refines_store_nonvacuous :
-  wf_hist w_H (fun s => Some s) ex_subject (b "app") [] ex_profile
+  wf_hist w_H (fun s => Some s) ex_subject (b "app") [] w_limit ex_profile
           (mkStore [] [] [] [(zero_digest, ex_blob)]) ex_ops /\
   rst_ok ex_profile RSUnknown /\
   snd (spec_run w_H ex_subject (b "app") [] (mkStore [] [] [] [(zero_digest, ex_blob)]) ex_ops)
@@ -176,13 +176,13 @@ Proof. exact refines_store_nonvacuous. Qed.
    the Location of a POST answer, when present, is an upload session. *)
 Theorem C13_requests_allowed :
   forall (H : str -> str) (parse_mt : str -> option str) (subject_of : str -> option (option desc))
-         (main other : str) (user_mts : list str)
+         (main other : str) (user_mts : list str) (limit : N)
          (srv : Type) (exch : srv -> request -> srv * response),
     valid_repository main = true -> valid_repository other = true ->
     loc_ok srv exch ->
     forall os s rst s' rst' out,
       Forall op_ok os ->
-      run_ops H parse_mt subject_of main other user_mts srv exch s rst os = (s', rst', out) ->
+      run_ops H parse_mt subject_of main other user_mts limit srv exch s rst os = (s', rst', out) ->
       Forall (fun tr => Forall (fun qr => allowed (fst qr) = true) (fst tr)) out.
 Proof. exact run_ops_allowed. Qed.
 Print Assumptions C13_requests_allowed.
@@ -191,11 +191,11 @@ Print Assumptions C13_requests_allowed.
    field except the status: every request of every history is allowed *)
 Theorem C13_requests_allowed_registry :
   forall (H : str -> str) (parse_mt : str -> option str) (subject_of : str -> option (option desc))
-         (main other : str) (user_mts : list str) (p : profile) (kor : option (N * corruption))
+         (main other : str) (user_mts : list str) (limit : N) (p : profile) (kor : option (N * corruption))
          other_blobs rst os g out,
     valid_repository main = true -> valid_repository other = true ->
     no_status_corruption kor -> Forall op_ok os ->
-    run_history H parse_mt subject_of main other user_mts p kor other_blobs rst os = (g, out) ->
+    run_history H parse_mt subject_of main other user_mts limit p kor other_blobs rst os = (g, out) ->
     Forall (fun tr => Forall (fun qr => allowed (fst qr) = true) (fst tr)) out.
 Proof. exact run_history_allowed. Qed.
 Print Assumptions C13_requests_allowed_registry.
@@ -256,35 +256,36 @@ Proof. vm_compute. repeat split; reflexivity. Qed.
    digest; a digest header must be valid and is the descriptor's digest; without
    one, HEAD works only for digest references and GET hashes the body. *)
 Theorem C13_corruption_rejected_descriptor :
-  forall (H : str -> str) (parse_mt : str -> option str) r rf hd d,
-    gen_desc H parse_mt r rf hd = Some d ->
+  forall (H : str -> str) (parse_mt : str -> option str) (limit : N) r rf hd d,
+    gen_desc H parse_mt limit r rf hd = Some d ->
     parse_mt (nstr (r_ctype r)) = Some (d_mt d) /\ r_clen r = Some (d_sz d) /\
     (valid_digest rf = true -> d_dg d = rf) /\
     match nstr (r_dig r) with
-    | [] => if hd then d_dg d = rf /\ valid_digest rf = true else d_dg d = H (r_body r)
+    | [] => if hd then d_dg d = rf /\ valid_digest rf = true
+            else d_dg d = H (r_body r) /\ (limit <? len (r_body r)) = false
     | sd => sd = d_dg d /\ valid_digest sd = true
     end.
 Proof. exact gen_desc_consistent. Qed.
 Print Assumptions C13_corruption_rejected_descriptor.
 
 Theorem C13_corruption_rejected_resolve :
-  forall (H : str -> str) (parse_mt : str -> option str) (main : str) (user_mts : list str)
+  forall (H : str -> str) (parse_mt : str -> option str) (main : str) (user_mts : list str) (limit : N)
          (srv : Type) (exch : srv -> request -> srv * response) s rs s' t d,
-    man_resolve H parse_mt main user_mts srv exch s rs = (s', t, RDesc d) ->
+    man_resolve H parse_mt main user_mts limit srv exch s rs = (s', t, RDesc d) ->
     exists rf q r, resolve_ref main rs = Some rf /\ t = [(q, r)] /\ q_ep q = EManifest rf /\
-                   r_status r = 200 /\ gen_desc H parse_mt r rf true = Some d.
+                   r_status r = 200 /\ gen_desc H parse_mt limit r rf true = Some d.
 Proof. exact man_resolve_consistent. Qed.
 Print Assumptions C13_corruption_rejected_resolve.
 
 Theorem C13_corruption_rejected_fetch_reference :
-  forall (H : str -> str) (parse_mt : str -> option str) (main : str) (user_mts : list str)
+  forall (H : str -> str) (parse_mt : str -> option str) (main : str) (user_mts : list str) (limit : N)
          (srv : Type) (exch : srv -> request -> srv * response) s rs s' t d c,
-    man_fetchref H parse_mt main user_mts srv exch s rs = (s', t, RDescBytes d c) ->
+    man_fetchref H parse_mt main user_mts limit srv exch s rs = (s', t, RDescBytes d c) ->
     exists rf q r rest, resolve_ref main rs = Some rf /\ t = (q, r) :: rest /\
       r_status r = 200 /\ c = r_body r /\
-      ((rest = [] /\ gen_desc H parse_mt r rf false = Some d) \/
+      ((rest = [] /\ gen_desc H parse_mt limit r rf false = Some d) \/
        (r_clen r = None /\ exists q2 r2, rest = [(q2, r2)] /\ r_status r2 = 200 /\
-                                         gen_desc H parse_mt r2 rf true = Some d)).
+                                         gen_desc H parse_mt limit r2 rf true = Some d)).
 Proof. exact man_fetchref_consistent. Qed.
 Print Assumptions C13_corruption_rejected_fetch_reference.
 
